@@ -66,7 +66,10 @@ def gen_requests(rng, w, tier, exhaustive_len=24, per_channel=None, slice_exhaus
         if len(ints) > (16 if quick else 60):
             ints = rng.sample(ints, 16 if quick else 60) + [0, -1, n - 1, n, -n, -n - 1]
         for i in ints:
-            reqs.append({'op': 'index', 'ch': path, 'i': i})
+            r = {'op': 'index', 'ch': path, 'i': i}
+            if rng.random() < 0.12:
+                r['np'] = rng.choice(['int64', 'int32', 'intp'])
+            reqs.append(r)
     rng.shuffle(reqs)
     return reqs
 
